@@ -33,7 +33,7 @@ Fixpoint assigned (st : stmt) : list var :=
   | SSeq a b | SIf _ a b => assigned a ++ assigned b
   | SWhile _ b => assigned b
   | SAssign x _ => [x]
-  | SCall (Some x) _ _ => [x]
+  | SCall _ (Some x) _ _ => [x]
   | _ => []
   end.
 
@@ -58,7 +58,7 @@ Fixpoint stmt_prot (st : stmt) (P : pset) : option pset * bool :=
              | AVar y => if pmem y P then x :: P else premove x P
              | ANil => premove x P
              end), true)
-  | SCall x _ _ => (Some (match x with Some y => premove y P | None => P end), true)
+  | SCall _ x _ _ => (Some (match x with Some y => premove y P | None => P end), true)
   | SDeref _ x => (Some P, pmem x P)
   | SIf c a b =>
       let '(Pt, Pf, okc) := cond_prot c P in
